@@ -38,6 +38,10 @@ def water_viscosity(T=None, eta20=None, units=None, warn=True):
     t = T - 273.15 * K
     if warn and (_any(t < 0 * K) or _any(t > 100 * K)):
         warnings.warn("Temperature is outside range (0-100 degC)")
+    if units is not None:
+        from ..units import to_unitless
+
+        t = to_unitless(t, K)
     # equation (5) in the paper says "log" but they seem to mean "log10"
     # when comparing with Table II.
     return eta20 * 10 ** ((A * (20 - t) - B * (t - 20) ** 2) / (t + C))
